@@ -143,7 +143,7 @@ theorem lookup_erase_self (m : AMap α) (hs : Sorted m) (k : Int) : lookup (eras
     have h' := (sorted_cons_iff k0 v0 m).mp hs
     simp only [erase]
     split
-    · subst_vars; exact lookup_none_of_lt m k h'.1
+    · subst_vars; exact lookup_none_of_lt m _ h'.1
     · rename_i hne
       simp only [lookup, if_neg hne, ih h'.2]
 
@@ -403,7 +403,7 @@ theorem lookup_filterMap_val {β : Type} (f : Int → α → Option β) (m : AMa
     have := lookup_filterMap_keyed_of_mem (fun e : Int × α => e.1) _ hg m hs (k, v) hmem
     simp only at this
     rw [this]
-    cases f k v <;> rfl
+    rcases hf : f k v with _ | v2 <;> simp [hf]
 
 theorem sorted_filterMap_val {β : Type} (f : Int → α → Option β) (m : AMap α) (hs : Sorted m) :
     Sorted (m.filterMap fun kv => (f kv.1 kv.2).map fun v2 => (kv.1, v2)) := by
